@@ -1021,6 +1021,12 @@ class VMDKInspector(FileInspector):
             # capacity field) to read the size from
             return 0
 
+        if not self.region('header').complete:
+            # A short text stream can have its descriptor parsed while the
+            # header region is still waiting for its first 64 bytes: there
+            # is no sparse header to read the capacity from (yet)
+            return 0
+
         # If we have an embedded descriptor, we definitely have the header
         _sig, _ver, _flags, sectors, _grain, _desc_sec, _desc_num = (
             struct.unpack('<IIIQQQQ', self.region('header').data[:44]))
